@@ -11,7 +11,30 @@ import json
 import os
 import re
 from .common import Finding
-from .facts import walk, is_call, lit_val, peel, callee
+from .facts import walk, is_call, lit_val, callee
+from .facts import peel as _peel_loose
+
+
+def peel(n):
+    """strip only what cannot change a value: references, derefs, clones and string views"""
+    while isinstance(n, dict):
+        k = n.get("k")
+        if k == "ref":
+            n = n["e"]
+        elif k == "un" and n.get("op") == "*":
+            n = n["e"]
+        elif k == "mcall" and n.get("m") in ("as_ref", "as_str", "clone", "to_string", "as_deref", "to_owned",
+                                             "as_mut", "borrow", "as_slice", "cloned", "copied", "iter",
+                                             "into_iter") and not n.get("args"):
+            n = n["recv"]
+        elif k == "block" and not n.get("stmts") and n.get("expr") is not None:
+            n = n["expr"]
+        elif k == "cast":
+            n = n["e"]
+        else:
+            break
+    return n
+
 from . import guards
 from .guards import TRUE, FALSE, f_and, f_or, f_not, show, atoms_of
 
@@ -32,6 +55,9 @@ class AcceptExtract(guards.Extract):
         self.accept = []
         self.unknown = 0
         self.ctx = TRUE      # condition of the enclosing statements (kept out of the local pc to avoid blow-up)
+        out = body.get("output") or ""
+        self.mode = "bool" if out == "bool" else ("optres" if out.startswith("std::result::Result<std::option::Option<") else
+                                                  ("option" if out.startswith("std::option::Option<") else "result"))
 
     # values: eager text aliases ---------------------------------------------------------
     def place(self, n, env):
@@ -82,7 +108,9 @@ class AcceptExtract(guards.Extract):
             cl = [a for a in x.get("args") or [] if isinstance(a, dict) and a.get("k") == "closure"]
             if cl:
                 args = (args + "," if args else "") + "|%s|" % guards.canon(self.closure_formula(cl[0], env))
-            return "%s.%s(%s)" % (self.value_text(x["recv"], env), x["m"], args)
+            ga = x.get("ga") or []
+            gtxt = "::<%s>" % ",".join(g.rsplit("::", 1)[-1] for g in ga) if ga and x["m"] in ("downcast_ref", "parse", "collect", "downcast") else ""
+            return "%s.%s%s(%s)" % (self.value_text(x["recv"], env), x["m"], gtxt, args)
         if k == "call":
             f = (x.get("f") or "?").rsplit("::", 1)[-1]
             return "%s(%s)" % (f, ",".join(self.value_text(a, env) for a in x.get("args") or []))
@@ -224,7 +252,12 @@ class AcceptExtract(guards.Extract):
             if x.get("k") == "mcall":
                 args = [x.get("recv")] + args
             # message / field-name arguments (string literals) are not part of the condition
-            at = [self.value_text(a, env) for a in args if not isinstance(lit_val(peel(a)), str) or len(args) == 1]
+            at = []
+            for a in args:
+                if isinstance(a, dict) and a.get("k") == "closure":
+                    at.append("|%s|" % guards.canon(self.closure_formula(a, env)))
+                elif not isinstance(lit_val(peel(a)), str) or len(args) == 1:
+                    at.append(self.value_text(a, env))
             at = [a for a in at if not a.startswith("fmt(")]
             return self.atom("CALLOK(%s(%s))" % (name, ",".join(at)))
         return self.atom("OK(%s)" % self.value_text(e, env))
@@ -234,13 +267,32 @@ class AcceptExtract(guards.Extract):
         e = e
         while isinstance(e, dict) and e.get("k") == "block" and not e.get("stmts"):
             e = e.get("expr")
-        return isinstance(e, dict) and e.get("k") == "call" and e.get("ctor") and (e.get("f") or "").endswith(("::Ok", "::Some"))
+        if not (isinstance(e, dict) and e.get("k") == "call" and e.get("ctor")):
+            return False
+        f = e.get("f") or ""
+        if self.mode == "optres":
+            # "delivers something": Ok(Some(..))
+            if not f.endswith("::Ok"):
+                return False
+            a = peel((e.get("args") or [None])[0])
+            return isinstance(a, dict) and a.get("k") == "call" and (a.get("f") or "").endswith("::Some")
+        if self.mode == "option":
+            return f.endswith("::Some")
+        return f.endswith("::Ok")
 
     def is_err(self, e):
         while isinstance(e, dict) and e.get("k") == "block" and not e.get("stmts"):
             e = e.get("expr")
-        return isinstance(e, dict) and ((e.get("k") == "call" and e.get("ctor") and (e.get("f") or "").endswith(("::Err",)))
-                                        or (e.get("k") == "def" and (e.get("def") or "").endswith("::None")))
+        if not isinstance(e, dict):
+            return False
+        if e.get("k") == "call" and e.get("ctor") and (e.get("f") or "").endswith("::Err"):
+            return True
+        if e.get("k") == "def" and (e.get("def") or "").endswith("::None"):
+            return True
+        if self.mode == "optres" and e.get("k") == "call" and e.get("ctor") and (e.get("f") or "").endswith("::Ok"):
+            a = peel((e.get("args") or [None])[0])
+            return isinstance(a, dict) and a.get("k") == "def" and (a.get("def") or "").endswith("::None")
+        return False
 
     def value_exit(self, e, pc, env):
         """an expression is the function's result under pc"""
@@ -248,6 +300,9 @@ class AcceptExtract(guards.Extract):
         while isinstance(x, dict) and x.get("k") == "block" and not x.get("stmts") and x.get("expr") is not None:
             x = x["expr"]
         if x is None:
+            return
+        if self.mode == "bool" and x.get("k") not in ("if", "match", "block"):
+            self.accept.append(f_and(self.ctx, f_and(pc, self.cond(x, env))))
             return
         if self.is_err(x):
             return
@@ -555,13 +610,21 @@ def targets(F):
         if "body" not in b or b.get("exp") or b["kind"] not in ("Fn", "AssocFn"):
             continue
         outp = b.get("output") or ""
-        if not outp.startswith("std::result::Result<"):
-            continue
         p = b["path"]
-        is_field_parse = (b.get("impl_trait") or "").endswith("traits::SwiftField") and b["name"] in ("parse", "parse_with_variant")
-        is_util = p.startswith(("fields::swift_utils::", "fields::field_utils::"))
-        is_hdr = p.startswith("headers::") and b["name"] == "parse"
-        if is_field_parse or is_util or is_hdr:
+        res = outp.startswith("std::result::Result<")
+        opt = outp.startswith("std::option::Option<")
+        is_field_parse = res and (b.get("impl_trait") or "").endswith("traits::SwiftField") and b["name"] in ("parse", "parse_with_variant")
+        is_util = res and p.startswith(("fields::swift_utils::", "fields::field_utils::"))
+        is_hdr = res and p.startswith("headers::") and b["name"] == "parse"
+        is_parser = (res or opt or outp == "bool") and p.startswith(("parser::message_parser::", "parser::field_extractor::",
+                                                                       "parser::utils::", "parser::generated::",
+                                                                       "parser::swift_parser::SwiftParser::extract_block",
+                                                                       "parser::swift_parser::SwiftParser::find_matching_brace",
+                                                                       "parser::swift_parser::FieldConsumptionTracker::"))
+        is_pred = outp == "bool" and b["name"] in ("has_reject_codes", "has_return_codes", "is_cover_message",
+                                                   "is_stp_message", "is_stp_compliant") and \
+            (p.startswith("swift_message::") or p.startswith("messages::"))
+        if is_field_parse or is_util or is_hdr or is_parser or is_pred:
             out.append(b)
     return out
 
@@ -579,6 +642,10 @@ def extract_all(F):
 
 
 FILTERS = {
+    "parser": re.compile(r"^parser::(message_parser|field_extractor|utils)::"),
+    "blocks": re.compile(r"^parser::swift_parser::SwiftParser::|^parser::utils::extract_block4"),
+    "tokeniser": re.compile(r"^parser::generated::|FieldConsumptionTracker"),
+    "predicates": re.compile(r"::(has_reject_codes|has_return_codes|is_cover_message|is_stp_message|is_stp_compliant)$"),
     "amount": re.compile(r"amount|decimal|Field(19|32|33|34|36|37|60|61|62|64|65|71F|71G|90)"),
     "date": re.compile(r"date|time|Field(11|13|30|32|60|61|62|64|65)"),
     "headers": re.compile(r"^headers::|Header"),
@@ -596,8 +663,11 @@ def u6(rep, F, flt=None):
     spec = json.load(open(SPEC))["functions"]
     cur = extract_all(F)
     rx = FILTERS.get(flt)
+    if flt == "fields":
+        rx = re.compile(r"^(<fields::|fields::|headers::)")
     if flt:
-        r["floor"] = {"amount": 25, "date": 20, "headers": 4}.get(flt, 1)
+        r["floor"] = {"amount": 25, "date": 20, "headers": 4, "parser": 10, "blocks": 2, "tokeniser": 2,
+                      "predicates": 12}.get(flt, 1)
     for path in sorted(set(spec) | set(cur)):
         if rx is not None and not rx.search(path):
             continue
